@@ -258,7 +258,6 @@ BUILDER_PROGRAMS = {
     "nested": "def prog(b):\n    b.begin_list()\n    b.begin_list()\n    b.end_list()\n    b.begin_list()\n    b.null()\n    b.integer(1)\n    b.end_list()\n    b.end_list()\n    b.null()\n    return b",
     "tuples": "def prog(b):\n    for i in range(3):\n        b.begin_tuple(2)\n        b.index(1)\n        b.real(i * 1.5)\n        b.index(0)\n        b.integer(i)\n        b.end_tuple()\n    return b",
     "records": "def prog(b):\n    for i in range(3):\n        b.begin_record('pt')\n        b.field('x')\n        b.integer(i)\n        b.field('y')\n        b.begin_list()\n        for j in range(i):\n            b.boolean(j == 1)\n        b.end_list()\n        b.end_record()\n    b.begin_record()\n    b.field('z')\n    b.null()\n    b.end_record()\n    return b",
-    "clear": "def prog(b):\n    b.integer(1)\n    b.begin_list()\n    b.end_list()\n    b.clear()\n    b.real(2.5)\n    b.real(3.5)\n    return b",
     "union": "def prog(b):\n    b.integer(1)\n    b.begin_list()\n    b.integer(2)\n    b.end_list()\n    b.boolean(False)\n    b.begin_record()\n    b.field('x')\n    b.real(0.5)\n    b.end_record()\n    return b",
 }
 BUILDER_ERRORS = {
@@ -288,7 +287,7 @@ class C20(runner.Check):
             "by negative index; every range slice x[i:j], x[i:], x[:j] with i, j in [-n-1, n+1]; field access in the four "
             "orders/spellings; 'in' tests; np.asarray of numeric leaves; early exits (break/continue); pass-through of the "
             "array, of every item (including out-of-range positions: the error half) and of slices; len; each run twice. "
-            "ArrayBuilder: seven builder programs over every method the lowering offers and five ill-nested ones, compiled "
+            "ArrayBuilder: six builder programs over every method the lowering offers and five ill-nested ones, compiled "
             "vs interpreted. Oracle: the same function run by the interpreter on the same array; the full traversal must also "
             "equal the array's to_list; a returned array must equal its input in value and type; sys.getrefcount of the array, "
             "its layout and the returned object balance over repeated calls. non-trivial = program output with at least one "
@@ -466,9 +465,13 @@ class C20(runner.Check):
                     self._viol(st, "unexpected-error", "%s%r: compiled code raises %s, interpreter returns %r" % (name, args, got[1], want[1]),
                                case, prog=name, **sig)
                     continue
-                if not layoutsem.same(got[1], want[1]) or got[2] != want[2]:
+                if not layoutsem.same(got[1], want[1]):
                     self._viol(st, "value", "%s%r: compiled %r (%s), interpreted %r (%s)" % (name, args, got[1], got[2], want[1], want[2]),
-                               case, prog=name, **sig)
+                               case, prog=name, empty_result=(got[1] == []), **sig)
+                    continue
+                if got[2] != want[2]:
+                    self._viol(st, "type", "%s%r: compiled %r has type %s, interpreted %r has type %s" % (
+                        name, args, got[1], got[2], want[1], want[2]), case, prog=name, empty_result=(got[1] == []), **sig)
                     continue
                 if rc1 != rc0:
                     self._viol(st, "refcount", "%s%r: reference counts (array, layout) %r before, %r after" % (name, args, rc0, rc1), case,
@@ -494,7 +497,14 @@ class C20(runner.Check):
         seen_alt = set()
         for tvs in self._arrays(T, tier):
             ref = values.strip(tvs)
+            encl = []
             for d, names in encs.encodings(T, tvs, 1, True):
+                encl.append((d, names))
+                d2 = _truthy_masks(d)
+                if d2 is not None:
+                    # the same array with "true" mask bytes other than 1 (the C++ layer reads a byte mask as != 0)
+                    encl.append((d2, list(names) + ["mask-bytes-not-0-1"]))
+            for d, names in encl:
                 try:
                     lay = layouts.build(d)
                 except Exception:  # noqa: B902
@@ -567,6 +577,12 @@ class C20(runner.Check):
                 st.states += 1
                 case = {"mode": "wrapped", "gtype": values.type_to_json(T), "layout": layouts.to_json(d), "wrap": mode}
                 sig = dict(type=values.tstr(T), top=d["class"].rstrip("0123456789U_"), wrapped=mode.split("-")[0])
+                if T[0] in ("str", "bytes") and mode.startswith("virtual"):
+                    # items of a virtual *string* array: executed in a child process, because on the unchanged tree the
+                    # compiled code dereferences a wrong pointer (KF-C20-8) and would take the worker down with it
+                    self._probe_virtual_strings(st, ref, mode, case, sig)
+                    self._passthrough_only_array(st, arr, case, sig)
+                    continue
                 refv = _refvalue(ref)
                 for name, (src, py, jit) in progs.items():
                     if mode.startswith("partitioned") and name in ("slices", "fields", "contains", "asarray"):
@@ -575,6 +591,41 @@ class C20(runner.Check):
                             continue
                     self._compare_prog(st, name, py, jit, arr, case, sig, absolute=[refv] if name.startswith("walk-") else None)
                 self._passthrough(st, arr, n, case, sig, ref)
+
+    def _probe_virtual_strings(self, st, ref, mode, case, sig):
+        import subprocess
+        self._no += 1
+        pool.mark(self._no)
+        st.transitions += 1
+        st.evaluations += 1
+        env = dict(os.environ)
+        env.pop("LD_PRELOAD", None)
+        p = subprocess.run([sys.executable, os.path.abspath(__file__), "--probe-virtual-strings", repr(ref), mode], env=env,
+                           stdout=subprocess.PIPE, stderr=subprocess.DEVNULL, text=True, timeout=600)
+        want = sum(len(x.encode("utf-8")) if isinstance(x, str) else len(x) for x in ref)
+        if p.returncode < 0:
+            self._viol(st, "crash", "iterating the items of a virtual string array %r (%s) in compiled code died with signal %d" % (
+                ref, mode, -p.returncode), case, prog="walk-iter", strings=True, **sig)
+        elif p.returncode != 0 or p.stdout.strip().splitlines()[-1:] != [str(want)]:
+            self._viol(st, "value", "virtual string array %r (%s): compiled total length %r, expected %d (exit %d)" % (
+                ref, mode, p.stdout.strip()[-80:], want, p.returncode), case, prog="walk-iter", strings=True, **sig)
+        else:
+            st.outcome("walk-iter:ok")
+            st.nontrivial += 1
+
+    def _passthrough_only_array(self, st, arr, case, sig):
+        ak = self.ak
+        py, jit = self._pt["return-array"]
+        st.transitions += 1
+        st.evaluations += 1
+        try:
+            ok = layoutsem.same(_plain(ak.to_list(jit(arr))), _plain(ak.to_list(arr)))
+        except Exception as err:  # noqa: B902
+            ok = False
+        if ok:
+            st.outcome("return-array:ok")
+        else:
+            self._viol(st, "value", "return-array of a virtual string array differs", case, prog="return-array", **sig)
 
     def _shard_builder(self, st, tier, _):
         ak = self.ak
@@ -669,6 +720,34 @@ class C20(runner.Check):
         return bool(st.violations), "\n".join(text) if st.violations else "\n".join(text + ["holds"])
 
 
+def _truthy_masks(d):
+    """copy of a layout description in which the non-zero bytes of every ByteMaskedArray mask are 2, -1, 127, ... ;
+    None if there is no such byte"""
+    changed = [False]
+    cyc = [2, -1, 127, -128, 64]
+
+    def walk(x):
+        if not isinstance(x, dict):
+            return x
+        out = dict(x)
+        if out.get("class") == "ByteMaskedArray":
+            m = np.array(out["mask"], dtype=np.int8).copy()
+            k = 0
+            for i in range(len(m)):
+                if m[i] != 0:
+                    m[i] = cyc[k % len(cyc)]
+                    k += 1
+                    changed[0] = True
+            out["mask"] = m
+        if isinstance(out.get("content"), dict):
+            out["content"] = walk(out["content"])
+        if out.get("contents"):
+            out["contents"] = [walk(c) for c in out["contents"]]
+        return out
+    res = walk(d)
+    return res if changed[0] else None
+
+
 def _classes(d):
     """node classes of a layout description, index widths removed"""
     out = [d["class"].rstrip("0123456789U_")]
@@ -715,5 +794,29 @@ def _plain(v):
     return v
 
 
+def _probe_virtual_strings(argv):
+    """child process: sum of the lengths of the items of a virtual string array, computed by compiled code"""
+    import ast
+    ref, mode = ast.literal_eval(argv[0]), argv[1]
+    c = C20()
+    c._setup()
+    ak, numba = c.ak, c.numba
+    whole = ak.Array(ref) if ref else ak.Array(ak.layout.ListOffsetArray64(ak.layout.Index64(np.zeros(1, np.int64)), ak.layout.NumpyArray(
+        np.zeros(0, np.uint8), parameters={"__array__": "char"}), parameters={"__array__": "string"}))
+    kw = dict(length=len(ref), form=whole.layout.form) if mode != "virtual-bare" else {}
+    arr = ak.virtual(lambda: whole, cache=_Cache() if mode == "virtual-cache" else None, **kw)
+
+    @numba.njit
+    def total(x):
+        s = 0
+        for v in x:
+            s += len(v)
+        return s
+    print(total(arr))
+    return 0
+
+
 if __name__ == "__main__":
+    if len(sys.argv) > 1 and sys.argv[1] == "--probe-virtual-strings":
+        sys.exit(_probe_virtual_strings(sys.argv[2:]))
     sys.exit(runner.main(C20()))
